@@ -8,5 +8,5 @@ rsync -a --exclude .git /repo/ "$tmp/repo/"
 ( cd "$tmp/repo" && patch -p1 -s --no-backup-if-mismatch -i "$patch" ) || { echo "PATCH DOES NOT APPLY"; exit 3; }
 mkdir -p "$tmp/ev"; cp /verif/known_findings.json "$tmp/ev/"
 for p in "$@"; do
-  /verif/bin/spdxverif check -property "$p" -tier quick -repo "$tmp/repo" -verif "$tmp/ev" 2>&1 | grep -E "^ *(violated|undecided|OK|VIOLATION|KNOWN|FAIL)" | cut -c1-400
+  ${SPDXVERIF_BIN:-/verif/bin/spdxverif} check -property "$p" -tier quick -repo "$tmp/repo" -verif "$tmp/ev" 2>&1 | grep -E "^ *(violated|undecided|OK|VIOLATION|KNOWN|FAIL)" | cut -c1-400
 done
